@@ -133,8 +133,8 @@ Section Closure.
       apply P_try; [apply P_try; [exact Hb|apply P_custom_end]|intros r].
       unfold custom_handler.
       assert (H : P (
-                   t0 <- get_ts ;;
                    c <- cleanup LF crun ;;
+                   t0 <- get_ts ;;
                    match c, r with
                    | Some e, Err (XInvalid m) => _ <- (if internal_msg m then mark_dirty else ret tt) ;; throw e
                    | Some e, _ => throw e
@@ -142,8 +142,8 @@ Section Closure.
                    | None, Err (XInvalid m) => match failed t0 with Some _ => throw (XInvalid m) | None => ret None end
                    | None, Err e => throw e
                    end)).
-      { apply P_bind; [apply P_get_ts|intros t0].
-        apply P_bind; [apply P_cleanup|intros c].
+      { apply P_bind; [apply P_cleanup|intros c].
+        apply P_bind; [apply P_get_ts|intros t0].
         destruct c as [e|]; destruct r as [v|e']; pa; destruct e'; pa; try (destruct (internal_msg m); pa); destruct (failed t0); pa. }
       destruct r as [v|[]]; try exact H. apply P_throw.
     Qed.
